@@ -44,12 +44,13 @@ class World:
         self.closed_port = e2e.free_port()
         self.deny_port = e2e.free_port()
         self.norule_port = e2e.free_port()
-        for k in ("hup403", "hupclose", "hupgarbage", "s5no", "s5die", "s4no", "dead", "hup200junk"):
+        for k in ("hup403", "hup403u", "hupclose", "hupgarbage", "s5no", "s5die", "s4no", "dead", "hup200junk"):
             self.origin[k] = mk(e2e.echo_handler)          # must never be reached
         self.up = {
             "hup": mk(e2e.http_upstream(relay_to=(LOOP, self.origin["hup"].port))),
             "hupslow": mk(e2e.http_upstream(relay_to=(LOOP, self.origin["hupslow"].port), reply_delay=0.5)),
             "hup403": mk(e2e.http_upstream(verdict=b"HTTP/1.1 403 Forbidden\r\nContent-Length: 0\r\n\r\n")),
+            "hup403u": mk(e2e.http_upstream(verdict="HTTP/1.1 403 Acc\u00e8s refus\u00e9 \u2013 \u7981\u6b62\r\nX-Reason: \u00fcber\r\n\r\n".encode())),
             "hupclose": mk(e2e.http_upstream(verdict=None)),
             "hupgarbage": mk(e2e.http_upstream(verdict=b"SSH-2.0-OpenSSH_9.0\r\n\r\n")),
             "s5": mk(e2e.socks5_upstream(rep=0, relay_to=(LOOP, self.origin["s5"].port))),
@@ -60,7 +61,7 @@ class World:
         }
         # domain targets are only sent through upstream proxies, which relay to a fixed origin
         conns = [{"name": "direct", "dns": {"servers": "system", "family": "V4Only"}}]
-        for k in ("hup", "hupslow", "hup403", "hupclose", "hupgarbage"):
+        for k in ("hup", "hupslow", "hup403", "hup403u", "hupclose", "hupgarbage"):
             conns.append({"name": k, "type": "http", "server": LOOP, "port": self.up[k].port})
         conns.append({"name": "dead", "type": "http", "server": LOOP, "port": self.closed_port})
         for k in ("s5", "s5no", "s5die"):
@@ -109,7 +110,7 @@ class World:
 
 
 ESTABLISHING = {"direct", "hup", "hupslow", "s5", "s4", "lb"}
-FAILING = {"refused": 1, "hup403": 1, "hupclose": 1, "hupgarbage": 1, "s5no": 1, "s5die": 1, "s4no": 1, "dead": 1, "deny": 0, "norule": 0}
+FAILING = {"refused": 1, "hup403": 1, "hup403u": 1, "hupclose": 1, "hupgarbage": 1, "s5no": 1, "s5die": 1, "s4no": 1, "dead": 1, "deny": 0, "norule": 0}
 
 
 def run_tcp(w, proto, route, host):
@@ -284,7 +285,7 @@ def run(tier, seed, replay=None):
                 for route in sorted(ESTABLISHING) + sorted(FAILING):
                     hosts = [LOOP]
                     if route in ("hup", "hupslow", "s5", "s4", "hup403", "s5no", "s4no", "deny", "norule", "dead"):
-                        hosts.append(r.choice(["origin.test", "a.b.example", "x" * r.randint(1, 200) + ".test"]))
+                        hosts.append(r.choice(["origin.test", "a.b.example", "x" * r.randint(1, 200) + ".test", "b\u00fccher.example", "\u4f8b\u3048.test"]))
                     for host in hosts:
                         jobs.append(("tcp", proto, route, host))
             for s in ("bind5", "cmd9", "udp-not-allowed", "badpass5", "baduser5", "goodpass5", "nomethod5", "bind4", "baduser4", "gooduser4"):
@@ -362,7 +363,7 @@ def run(tier, seed, replay=None):
         if "error" in h:
             rep.fail("C06: %s listener, route %s: %s" % (h["proto"], h["route"], h["error"]), {"kind": "failing-input", "scenario": jsonable(h)})
     # origins behind failing routes must never have been reached; the others as often as success was claimed
-    for k in ("hup403", "hupclose", "hupgarbage", "s5no", "s5die", "s4no", "dead"):
+    for k in ("hup403", "hup403u", "hupclose", "hupgarbage", "s5no", "s5die", "s4no", "dead"):
         if origin_seen.get(k):
             rep.fail("C06: origin behind route %s was reached %d times" % (k, origin_seen[k]), {"kind": "failing-input", "scenario": k})
     claimed_by_route = collections.Counter(h["route"] for h in hists if h.get("claimed") and h["kind"] == "tcp")
